@@ -66,16 +66,10 @@ def h_ukv_step(cell: int, nk1: int, nk2: int, nk3: int, nv1: int, nv2: int, nv3:
         g.close()
         return ok and file_bytes(p) == before
     if op == 1:        # reopen for append through the stale handle, put, read through a fresh and the old handle
+        if any(k3 == k for k, _ in recs):
+            return True      # duplicate keys: h_ukv_dup (the KeyError message formats the key, which would realise a symbolic one)
         g.open("a")
-        dup = any(k3 == k for k, _ in recs)
-        try:
-            g.put(k3, v3)
-        except KeyError:
-            ok = dup and _view(g, recs) and file_bytes(p) == before
-            g.close()
-            return ok
-        if dup:
-            return False
+        g.put(k3, v3)
         ok = _view(g, recs + [(k3, v3)])
         g.close()
         h = UKVFile(p, "r")
@@ -108,6 +102,47 @@ def h_ukv_step(cell: int, nk1: int, nk2: int, nk3: int, nv1: int, nv2: int, nv3:
     return ok and file_bytes(p) == before
 
 
+KEYMENU = [b"a", b"ab", b"\x00", b"\xff\xfe"]
+
+
+def h_ukv_dup(ksel: int, osel: int, nrec: int, stale: int, via_stale: bool, nv: int, x: int, y: int) -> bool:
+    """
+    Duplicate key through a fresh or a stale handle: KeyError, file bytes and every handle's view unchanged.
+    Keys are concrete (menu), values symbolic.
+    pre: 0 <= ksel < len(KEYMENU) and 0 <= osel < len(KEYMENU) and ksel != osel
+    pre: 1 <= nrec <= 2 and 0 <= stale <= nrec and 0 <= nv <= 2 and isbyte(x, y)
+    post: _
+    """
+    key, other, v = KEYMENU[ksel], KEYMENU[osel], mkb(nv, x, y)
+    p = new_path()
+    w = UKVFile(p, "w")
+    w.close()
+    g = UKVFile(p, "r")
+    g.close()
+    recs = [(key, b"v0"), (other, b"")][:nrec]
+    for i, (k, val) in enumerate(recs):
+        if i == stale:
+            g.open("r")
+            g.close()
+        w.open("a")
+        w.put(k, val)
+        w.close()
+    before = file_bytes(p)
+    f = g if via_stale else w
+    f.open("a")
+    try:
+        f.put(key, v)
+        return False
+    except KeyError:
+        pass
+    ok = _view(f, recs) and file_bytes(p) == before
+    f.close()
+    h = UKVFile(p, "r")
+    ok = ok and _view(h, recs)
+    h.close()
+    return ok and file_bytes(p) == before
+
+
 def h_ukv_failed_ops(ka: int, nv: int, x: int, y: int, klen: int, which: int) -> bool:
     """
     Failing operations leave the file and the handle's view unchanged: duplicate key, key of 256 bytes
@@ -123,7 +158,7 @@ def h_ukv_failed_ops(ka: int, nv: int, x: int, y: int, klen: int, which: int) ->
     base = [(b"k0", b"v0")]
     before = file_bytes(p)
     if which == 0:
-        key = kb * klen
+        key = bytes([ka] * 255) if klen == 255 else bytes([ka] * 256)      # concrete lengths, one symbolic byte repeated
         try:
             f.put(key, v)
         except Exception as e:
@@ -348,6 +383,7 @@ def run(rep, tier):
     specs = [
         *[{"fn": "h_ukv_step", "timeout": 240 if q else 900, "split": c, "env": {"XH_MAXV": "1" if q else "2"}} for c in range(len(SCEN))],
         {"fn": "h_ukv_failed_ops", "timeout": 120},
+        {"fn": "h_ukv_dup", "timeout": 120},
         {"fn": "h_headers", "timeout": 120},
         {"fn": "h_coll_buffer", "timeout": 180},
         {"fn": "h_coll_dup", "timeout": 120},
